@@ -27,7 +27,8 @@ from dataclasses import dataclass, field, InitVar
 from typing import List, Optional
 from apischema.fields import with_fields_set
 from apischema.metadata import default_as_set
-from typing import Generic, TypeVar
+from typing import Annotated, Generic, TypeVar, Union
+from apischema import schema
 T = TypeVar("T")
 _M = object()
 """
@@ -125,6 +126,20 @@ class KwOnly:
 """,
         (F("a", "req"), F("k", "opt_kw", sample=6, default=0), F("b", "opt", sample=2), F("iv", "initvar_opt", sample=4), F("c", "opt", sample=3, default=0), F("e", "init_false", default=5)),
         "keyword-only field and InitVar declared before other init fields",
+    ),
+    Shape(
+        "AnnotatedFields",
+        """
+@with_fields_set
+@dataclass
+class AnnotatedFields:
+    a: Annotated[int, schema(min=0)]
+    b: Annotated[Optional[int], schema(min=0)] = None
+    c: Annotated[Optional[int], schema(max=100)] = field(default=None, metadata=default_as_set)
+    d: Annotated[List[int], schema(max_items=9)] = field(default_factory=list)
+""",
+        (F("a", "req"), F("b", "opt", sample=2), F("c", "opt", True, sample=3), F("d", "opt", sample=[1], default=[])),
+        "PEP 593 metadata on the whole annotation of the fields (Annotated around Optional / plain types)",
     ),
     Shape(
         "GenBox",
